@@ -3,6 +3,7 @@ import NomtModel.Core.PathUpdateExec
 import NomtModel.Core.TermHasher
 import NomtModel.Core.UpdateNoPanic
 import NomtModel.Core.Complete
+import NomtModel.Core.MultiUpdateSafe
 /-!
 # C18 — Proof verifiers are total: any input gets a verdict, never a panic
 
@@ -91,5 +92,71 @@ def badRoot : T := .node (.leaf [true, false] 7) .term
 example : ∃ v, verify TH 2 { terminal := .leaf [true, false] 7, siblings := [T.term] } [false, false] badRoot = .ok v ∧
     (pathVerifyUpdate TH 2 badRoot [ { inner := v, ops := [([false, false], some 1)] } ]).isPanic = true :=
   ⟨_, rfl, by decide⟩
+
+/-- T18.3 **`verify_multi_proof` is total**: for EVERY multi-proof object (any terminals, any depths, any
+number of siblings — no hypothesis on lengths is needed) and every root, the mirror of the repaired
+`verify` / `verify_range` returns a verdict: none of the remaining slice / index / subtraction /
+`unwrap_err` sites is reachable, and the fuel of the Lean recursion is never exhausted. -/
+theorem T18_3_verify_multi_total (mp : MultiProof Node VH) (root : Node) :
+    (verifyMulti H mp root).isPanic = false :=
+  verifyMulti_no_panic H mp root
+
+/-- T18.4 (multi-proof lookups are total): on an accepted multi-proof, for a key at least as long as
+every verified depth (true for 256-bit keys: `depth ≤ |terminal path| ≤ 256`), `find_index_for`,
+`confirm_value` and `confirm_nonexistence` never reach a panic site. -/
+theorem T18_4_multi_lookups_total (mp : MultiProof Node VH) (root : Node) (v : VerifiedMulti Node VH)
+    (hv : verifyMulti H mp root = .ok v) (key : Key) (hk : ∀ vp ∈ v.inner, vp.depth ≤ key.length) (vh : VH) :
+    (findIndexFor v key).isPanic = false ∧ (confirmValue v key vh).isPanic = false ∧
+    (confirmNonexistence v key).isPanic = false :=
+  multi_lookups_total H mp root v hv key hk vh
+
+/-- T18.5 (**partial**) panic sites of `verify_multi_proof_update` that are unreachable on a
+`VerifiedMultiProof` (= anything `verify` accepted, whatever object the prover supplied):
+
+1. `hash_and_compact_terminal`: for any two different verified paths the `up_layers` computation
+   succeeds — `shared_bits < depth`, so neither the `PathPrefixOfAnother` error nor the
+   `skip - (n + 1)` underflow (multi_proof.rs:838) can occur;
+2. every verified path has `unique_siblings.start ≤ end ≤ siblings.len()`, `end - start ≤ depth`
+   and `depth ≤ path().len()`: the subtractions `unique_siblings.end - start` (638) and
+   `next_terminal.depth - terminal_n` (640) of `CommonSiblings::advance`, the upper bound of its
+   `siblings[taken..end]` slice (662) and the slice `path()[..terminal.depth]` (853) are safe;
+3. every recorded bisection is non-empty and ends inside `siblings` (upper bound of the slice at 662
+   for bisections; the `while` loop of `advance` makes progress);
+4. `terminal_contains` (587) and the terminal search never slice out of range for a key at least as long
+   as every verified depth (256-bit keys).
+
+**Not proved** (held only by the differential run `core-mp`: no panic of the real
+`verify_multi_proof_update` and model agreement on every line, including malformed-but-accepted
+objects): `proof.bisections[bisection_index]` in range (620), `assert_eq!(common_siblings.start,
+taken_siblings)` (623), the lower bound `taken ≤ end` of the slice at 662, `proof.inner[…]` index
+synchronisation (616, 724, 779, 780, 796), `pop_if_at_depth(cur_layer).unwrap()` (868) and the key
+slices inside `build_trie`; these need the pre-order layout invariant of `inner` / `bisections` and the
+stack discipline of `CommonSiblings`, which is not formalised. -/
+theorem T18_5_partial_multi_update_sites (mp : MultiProof Node VH) (root : Node) (v : VerifiedMulti Node VH)
+    (hv : verifyMulti H mp root = .ok v) :
+    (∀ (i j : Nat) (t nt : VPath VH), v.inner[i]? = some t → v.inner[j]? = some nt → i ≠ j →
+      upLayers t (some nt) = .ok (t.depth - (shared t.terminal.path nt.terminal.path + 1))) ∧
+    (∀ vp ∈ v.inner, vp.uStart ≤ vp.uEnd ∧ vp.uEnd ≤ v.siblings.length ∧
+      vp.uEnd - vp.uStart ≤ vp.depth ∧ vp.depth ≤ vp.terminal.path.length) ∧
+    (∀ b ∈ v.bisections, b.cStart < b.cEnd ∧ b.cEnd ≤ v.siblings.length) ∧
+    (∀ (key : Key), (∀ vp ∈ v.inner, vp.depth ≤ key.length) → ∀ i,
+      (findTerminalFrom key (v.inner.drop i) i).isPanic = false) := by
+  obtain ⟨hp, hb⟩ := verifyMulti_ranges H mp root v hv
+  refine ⟨fun i j t nt hi hj hij => upLayers_ok H mp root v hv i j t nt hi hj hij, ?_, hb, ?_⟩
+  · intro vp hvp
+    obtain ⟨⟨a, b, c⟩, d⟩ := hp vp hvp
+    exact ⟨a, b, c, d⟩
+  · intro key hk i
+    apply findTerminalFrom_no_panic
+    intro t ht
+    have htm : t ∈ v.inner := List.mem_of_mem_drop ht
+    exact ⟨hk t htm, (hp t htm).2⟩
+
+/-- non-vacuity of T18.3: a proof object with an absurd depth, no siblings and prefix-related terminals
+gets an error verdict from the mirror of the repaired verifier (it reached a slice before the repair) -/
+example : (match verifyMulti TH { paths := [{ terminal := .terminator [], depth := 300 },
+              { terminal := .leaf [false, true] 1, depth := 0 }], siblings := [] } T.term with
+           | .err .pathPrefixOfAnother => true
+           | _ => false) = true := by decide
 
 end Nomt.C18
